@@ -24,3 +24,11 @@ Definition bad_spec_required (gs : list (list string * list case)) : list Z :=
                     end
                 | None => -1
                 end) (bad_spec gs).
+
+(* cases of the slave events endpoint: (slave facts, credential facts, observed) *)
+Definition evcase := (slave_st * cred * obs)%type.
+Definition mk_slave (e h p l : bool) : slave_st := {| s_exists := e; s_has_hash := h; s_poll := p; s_listen := l |}.
+Definition mk_cred (a b c d e f : bool) : cred :=
+  {| c_present := a; c_jwt := b; c_iss := c; c_device := d; c_fresh := e; c_slave_key := f |}.
+Definition bad_events_spec (cs : list evcase) : list nat :=
+  mismatches (fun x : evcase => let '(s, c, o) := x in events_spec_ok s c o) cs 0.
